@@ -211,10 +211,34 @@ def handleNp (st : St) (args : List String) (impl : String) : St × Verdict :=
     (st, cmpModel s!"{st.pm.b.hashSize} {st.pm.b.dataSize} {st.pm.b.pruneList.bitmap.length}" impl)
   | _ => (st, .unknown)
 
+/-- the entries of a size file given as its bytes: 10 bytes each, `offset: u64 BE, size: u16 BE`;
+trailing bytes that do not make a whole entry are not addressable (`size / 10` elements) -/
+def parseSizeEntries : Nat → Bytes → List SizeEntry
+  | 0, _ => []
+  | fuel+1, b =>
+    if b.length < 10 then []
+    else (ofBE (b.take 8), ofBE ((b.drop 8).take 2)) :: parseSizeEntries fuel (b.drop 10)
+
+/-- `sizefile <hex>`: between closing the backend and `reopen` the harness replaced the content of
+`pmmr_size.bin` (deleted = `-`, truncated, shifted, junk appended, zero-filled, same-sum swap): the
+model's size file on disk becomes these entries; what `reopen` (`AppendOnlyFile::open`:
+`sum_sizes != size` → `rebuild_size_file`) makes of it is `VarFile.ofDisk`.  Spec side: nothing –
+the lines that follow are compared with the reference as always (`var_file_open_rebuilds`: a size
+file whose sum differs is rebuilt, the elements are those of the data file). -/
+def handleSizeFile (st : St) (hexs : String) (impl : String) : St × Verdict :=
+  match parseHex hexs, st.pm.b.dataFile with
+  | some bytes, .var v =>
+    let entries := parseSizeEntries (bytes.length + 1) bytes
+    let v' : VarFile := { v with sizeFile := { v.sizeFile with disk := entries } }
+    ({ st with pm := { st.pm with b := { st.pm.b with dataFile := .var v' } }, lastDisk := none },
+      cmpModel "ok" impl)
+  | _, _ => (st, .unknown)
+
 def handle (st : St) (args : List String) (impl : String) : St × Verdict :=
   let el := varElemLen
   -- `@n` tokens only number the observation inside the run
   let args := args.filter (fun a => !a.startsWith "@")
+  if args.head? == some "sizefile" then handleSizeFile st (args.getD 1 "") impl else
   if st.np && args.head? != some "new" then handleNp st args impl else
   match args with
   | ["new", kind] =>
@@ -409,6 +433,12 @@ def handle (st : St) (args : List String) (impl : String) : St × Verdict :=
   | ["pl_new"] => ({ st with pl := {} }, .ok)
   | ["pl_append", p] => match nat? p with
     | some p => let pl := st.pl.append p; ({ st with pl := pl }, cmpModel (showPl pl) impl)
+    | none => (st, .unknown)
+  | ["pl_try", p] => match nat? p with
+    -- `append` with its assertions (`Model/PruneList.lean` `appendChecked`): a panic leaves the list as it was
+    | some p => match st.pl.appendChecked 64 p with
+      | some pl => ({ st with pl := pl }, cmpModel (showPl pl) impl)
+      | none => (st, cmpModel "panic" impl)
     | none => (st, .unknown)
   | ["pl_q", p] => match nat? p with
     | some p =>
